@@ -45,6 +45,7 @@ MIN_NONTRIVIAL = 200
 REQUIRED_COUNTERS = ["tracebacks_checked", "callsite_frames_checked", "python_frames_checked", "text_error_pages", "html_error_pages", "format_exceptions_pages", "warnings_cases", "multi_template_tracebacks"]
 REQUIRED_COUNTERS += ["edit_and_recompile_rounds"]
 REQUIRED_COUNTERS += ["last_line_pages"]
+RULE += " form feed, VT, FS, NEL, U+2028/2029 inside literals and comments of the code block that raises."
 RULE += " a template whose first construction fails in its module-level code (formatted), corrected, then raising at render time."
 RULE += " a magic encoding comment as first line of three in ten documents."
 RULE += " module-level warnings when an up-to-date module file is reused for a template file at another path (copied directory, second spelling of the path)."
@@ -199,6 +200,10 @@ def build(r, pos, nl):
         n = r.randint(2, 5)
         k = r.randrange(n)
         lines = ["cv%d = %d" % (i, i) for i in range(n)]
+        for i in range(n):
+            if r.random() < 0.3:
+                # characters that str.splitlines() takes for line ends but Python does not, inside literals and comments
+                lines[i] = r.choice(["cv%d = 'a\x0cb'", "cv%d = 'x\u2028y\u2029z'", "cv%d = 1  # page\x0cbreak \x0b \x1c", "cv%d = 'n\x85l'"]) % i
         lines[k] = "boom('T')"
         lead = r.choice([1, 1, 2])
         margin = r.choice(["", "    ", "        "])
